@@ -38,7 +38,7 @@ def names(tier):
 
 INT = {"type": "integer"}
 USES = ("member", "variant", "def", "member_reqonly", "member_flat", "ext_variant", "int_variant", "ext_variant_t1", "ext_variant_t2", "ext_variant_struct", "adj_variant")
-PAIR_USES = {"member": ("member", "member_mixed", "member_reqonly", "vmember_ext", "vmember_int", "vmember_unt", "vmember_adj"), "variant": ("variant",), "def": ("def",), "member_flat": ("member_flat",),
+PAIR_USES = {"member": ("member", "member_mixed", "member_reqonly", "vmember_ext", "vmember_int", "vmember_unt", "vmember_adj"), "variant": ("variant",), "def": ("def", "def_alias", "def_mixed", "def_mixed_rev"), "member_flat": ("member_flat",),
              "ext_variant": ("ext_variant",), "int_variant": ("int_variant",), "member_reqonly": (),
              "ext_variant_t1": ("ext_variant_t1",), "ext_variant_t2": (), "ext_variant_struct": (), "adj_variant": ("adj_variant",)}
 
@@ -95,6 +95,16 @@ def doc_for(use, ns):
         return {"definitions": {"T": {"oneOf": subs}}}, ns + ["zz9"]
     if use == "def":
         return {"definitions": {n: {"type": "object", "properties": {"x": INT}} for n in ns}}, ns
+    if use in ("def_alias", "def_mixed", "def_mixed_rev"):
+        # definitions that get their name through the newtype wrapper (plain string, array, $ref ...) rather than from a struct / enum of their own
+        kinds = {"def_alias": [{"type": "string"}, {"type": "array", "items": INT}, {"$ref": "#/definitions/zz9"}],
+                 "def_mixed": [{"type": "object", "properties": {"x": INT}}, {"type": "string"}, {"type": ["integer", "null"]}],
+                 "def_mixed_rev": [{"type": "integer"}, {"type": "object", "properties": {"x": INT}}, {"type": "string", "enum": ["a", "b"]}]}[use]
+        defs = {n: kinds[i % len(kinds)] for i, n in enumerate(ns)}
+        if use == "def_alias":
+            defs["zz9"] = {"type": "object", "properties": {"x": INT}}
+            return {"definitions": defs}, ns + ["zz9"]
+        return {"definitions": defs}, ns
     raise ValueError(use)
 
 
@@ -195,8 +205,8 @@ def observe(c, a):
         named = [it["name"] for it in items if it.get("kind") in ("struct", "enum")]
         if len(set(named)) != len(named):
             probs.append("duplicate type identifiers %s" % sorted(named))
-        if len(named) != len(c["names"]):
-            probs.append("%d definitions produced %d types" % (len(c["names"]), len(named)))
+        if len(named) != len(c["wires"]):
+            probs.append("%d definitions produced %d types" % (len(c["wires"]), len(named)))
         loc = a.get("locate") or {}
         for n in c["names"]:
             if "ident" in (loc.get(n) or {}):
@@ -208,7 +218,7 @@ def run_cases(cs):
     jobs = []
     for c in cs:
         j = {"id": c["key"], "settings": {}, "ops": [{"root": c["doc"]}], "want": ["scan"]}
-        if c["use"] == "def":
+        if c["use"].startswith("def"):
             j["locate"] = c["names"]
         jobs.append(j)
     return adapter.run_jobs(jobs)
